@@ -126,6 +126,17 @@ class Assign:
     def gtext(self):
         return " & ".join(("" if p else "~") + "(" + norm(c) + ")" for c, p in self.guards) or "1"
 
+    def eff(self):
+        """Effective guard (no inlining, no state atom): the written guard minus the guards of later assignments to the same
+        target in the same scope (Migen: the last assignment wins).  Equals the written guard unless something overrides it."""
+        from . import boolx as B
+        from . import q
+        f = B.guard_formula(self.guards)
+        if self.fx is not None and self.kind in ("eq", "nextvalue"):
+            for b in q.Inliner(self.fx, self)._later(self):
+                f = B.And(f, B.Not(B.guard_formula(b.guards)))
+        return f
+
     def __repr__(self):
         st = f" @{self.state[1]}" if self.state else ""
         pg = (" py[" + "; ".join(("" if p else "not ") + c for c, p in self.pyguards) + "]") if self.pyguards else ""
@@ -134,11 +145,28 @@ class Assign:
 
 
 class Trans:
-    __slots__ = ("fsm", "src", "dst", "guards", "pyguards", "loops", "node", "order")
+    __slots__ = ("fsm", "src", "dst", "guards", "pyguards", "loops", "node", "order", "fx")
 
     def __init__(self, **kw):
+        self.fx = None
         for k, v in kw.items():
             setattr(self, k, v)
+
+    def eff(self):
+        """Effective guard of the transition: a later NextState in the same state (compatible Python-level configuration)
+        overrides this one."""
+        from . import boolx as B
+        f = B.guard_formula(self.guards)
+        if self.fx is not None:
+            seen = False
+            for u in self.fx.trans:
+                if u is self:
+                    seen = True
+                    continue
+                if seen and u.fsm == self.fsm and u.src == self.src and u.loops == self.loops and \
+                        all(pg in self.pyguards for pg in u.pyguards):
+                    f = B.And(f, B.Not(B.guard_formula(u.guards)))
+        return f
 
     @property
     def line(self):
@@ -1723,7 +1751,7 @@ class FX:
                     continue
                 self.trans.append(Trans(fsm=state[0], src=state[1], dst=n.state, guards=list(guards),
                                         pyguards=list(self.pyguards) + list(pyextra), loops=list(loops),
-                                        node=n.node or st, order=self.order))
+                                        node=n.node or st, order=self.order, fx=self))
             elif isinstance(n, IfN):
                 neg = []
                 for cond, body in n.arms:
